@@ -16,7 +16,7 @@ LEVEL = "proof"
 BOUNDED = [{"name": "gaussian_interval_rows_aligned", "script": "c15_gaussian.py", "timeout": 2400}]
 MRH = "elexmodel.handlers.data.ModelResults.ModelResultsHandler"
 ASSUMPTIONS = C03.ASSUMPTIONS + [
-    "gaussian estimator: the aggregate identity is checked for the counted-votes part only; alignment of its interval rows rests on C15 (bounded)",
+    "gaussian estimator: units gaussian.aggregate_intervals.* (defined in contracts/C15.py) prove the alignment of its interval rows and the bound formula with GaussianModel.fit under the contract proved in C15; the bounded end-to-end companion is kept",
     "bootstrap estimator (turnout/margin identities): see C06 units; the string-order lemma for multi-key aggregates is assumed (V3)",
 ]
 
